@@ -216,7 +216,9 @@ func (s *socket) onPacket(data *packet.Packet) {
 
 	switch data.Type {
 	case packet.PING:
-		if s.Transport().Protocol() != 3 {
+		// the heartbeat mode (and its timers) was set up from the session's revision; a
+		// candidate that upgraded the session with another EIO value does not change it
+		if s.protocol != 3 {
 			s.onError(errors.New("invalid heartbeat direction").Err())
 			return
 		}
@@ -225,7 +227,7 @@ func (s *socket) onPacket(data *packet.Packet) {
 		s.sendPacket(packet.PONG, nil, nil, nil)
 		s.Emit("heartbeat")
 	case packet.PONG:
-		if s.Transport().Protocol() == 3 {
+		if s.protocol == 3 {
 			s.onError(errors.New("invalid heartbeat direction").Err())
 			return
 		}
